@@ -26,6 +26,8 @@ def levels(tier):
              "defaults": ["never"], "backends": ["memory"], "pool": [POOL4[0], POOL4[1], POOL4[3]], "budget": 60},
             {"name": "auto-del-n1", "n": 1, "prelude": [["links", [[1, 2], [2, 1]]]], "alphabet": ["delwe"],
              "defaults": ["domain"], "backends": ["memory"], "pool": [POOL4[0], POOL4[1], POOL4[3]], "budget": 60},
+            {"name": "foreign-id", "n": 0, "prelude": TPL + [["attach", [3, 3], 40]], "alphabet": ["we"], "defaults": ["never"],
+             "backends": ["memory", "file"], "budget": 40},
             {"name": "tpl-n1", "n": 1, "prelude": TPL, "alphabet": ["addprefix", "rule"], "defaults": ["never"],
              "rule_patterns": ["path1"], "backends": ["memory"], "budget": 100, "pool": [POOL4[0], POOL4[1], POOL4[3]],
              "prelude": [["batch", 0, [1, 2]], ["links", [[1, 2], [2, 1], [1, 1]]], ["we", [[0, 3]]]]},
